@@ -36,7 +36,10 @@ var Requires = map[string][]string{
 	"C01": {"C06"},
 	"C04": {"C06"},
 	"C05": {"C06"},
-	"C08": {"C01", "C02", "C03", "C04", "C05", "C06", "C09"},
+	// ... and the kernel decides on the *numbers*: "the kernel's decisions equal the policy's" needs the table that turned
+	// the policy's names into numbers, and the audit-architecture word the filter compares, to be the kernel's (C12; seed
+	// C15h: a new architecture whose AUDIT_ARCH constant lacks the little-endian bit - every event takes the default)
+	"C08": {"C01", "C02", "C03", "C04", "C05", "C06", "C09", "C12"},
 	// "when the thread-sync flag is requested and the load returns nil, every thread ... is subject to the filter": that a nil
 	// result means the kernel attached the filter at all is C09 (seed C10g: a sparse errno-to-error table with a nil hole
 	// at ENOMEM - the thread-sync load "succeeds" with no thread filtered)
